@@ -150,6 +150,35 @@ Record delays := mkDelays {
   d_next : Z }.
 Definition no_delays : delays := mkDelays [] [] 0.
 
+(* ---------- requests ---------- *)
+Record req := mkReq {
+  r_event : event;
+  r_action : option action;
+  r_task : option positive;
+  r_pod : option (positive * Z);
+  r_exit : Z;
+  r_version : Z;
+  r_uid : Z }.     (* 0: the request names another job uid; 1: no uid; 2: this job's uid *)
+Definition req_eq_dec : forall a b : req, {a = b} + {a <> b}.
+Proof.
+  decide equality; try apply Z.eq_dec; try apply event_eq_dec;
+    try (decide equality; try apply action_eq_dec; try apply Pos.eq_dec; decide equality; try apply Z.eq_dec; apply Pos.eq_dec).
+Defined.
+
+(* the worker queue's rate limiter (handleJobError, job_controller.go 511-528): how often each
+   request VALUE has been re-queued since it last succeeded; --max-requeue-num; and whether the
+   step just taken ended by giving up *)
+Record rqueue := mkRq {
+  q_max : Z;                    (* maxRequeueNum: -1 = re-queue for ever *)
+  q_cnt : list (req * Z);       (* NumRequeues per request (absent = 0) *)
+  q_gave : bool }.
+Definition no_rq (m : Z) : rqueue := mkRq m [] false.
+Definition req_eqb (a b : req) : bool := if req_eq_dec a b then true else false.
+Fixpoint rq_get (r : req) (l : list (req * Z)) : Z :=
+  match l with [] => 0 | (r', n) :: t => if req_eqb r r' then n else rq_get r t end.
+Definition rq_forget (r : req) (l : list (req * Z)) : list (req * Z) := filter (fun x => negb (req_eqb r (fst x))) l.
+Definition rq_set (r : req) (n : Z) (l : list (req * Z)) : list (req * Z) := (r, n) :: rq_forget r l.
+
 (* ---------- world ---------- *)
 (* what else the controller's cache / listers know *)
 Record ctl := mkCtl {
@@ -158,10 +187,13 @@ Record ctl := mkCtl {
   c_wdel : bool;     (* the job on the API server has a deletion timestamp *)
   c_vdel : bool;     (* ... and the cached copy shows it *)
   c_queue : bool;    (* the job's queue is in the queue lister *)
-  c_delay : delays }.  (* the controller's delayed actions *)
-Definition ctl_dirty (c : ctl) : ctl := mkCtl (c_job c) true (c_wdel c) (c_vdel c) (c_queue c) (c_delay c).
+  c_delay : delays;  (* the controller's delayed actions *)
+  c_rq : rqueue }.   (* the worker queue's requeue counters *)
+Definition ctl_dirty (c : ctl) : ctl := mkCtl (c_job c) true (c_wdel c) (c_vdel c) (c_queue c) (c_delay c) (c_rq c).
 Definition set_delay (w_ctl : ctl) (d : delays) : ctl :=
-  mkCtl (c_job w_ctl) (c_dirty w_ctl) (c_wdel w_ctl) (c_vdel w_ctl) (c_queue w_ctl) d.
+  mkCtl (c_job w_ctl) (c_dirty w_ctl) (c_wdel w_ctl) (c_vdel w_ctl) (c_queue w_ctl) d (c_rq w_ctl).
+Definition ctl_rq (c : ctl) (q : rqueue) : ctl :=
+  mkCtl (c_job c) (c_dirty c) (c_wdel c) (c_vdel c) (c_queue c) (c_delay c) q.
 
 Record world := mkWorld {
   w_spec : spec;  v_spec : spec;          (* job spec: API server / job cache *)
@@ -181,21 +213,17 @@ Definition set_wpg (w : world) (g : option pgphase) : world :=
    the job cache; the informer has a new version of the job to deliver *)
 Definition write (w : world) (s : status) : world :=
   mkWorld (w_spec w) (w_spec w) s s (w_pods w) (v_pods w) (w_pg w) (v_pg w)
-          (mkCtl (c_job (v_ctl w)) true (c_wdel (v_ctl w)) (c_wdel (v_ctl w)) (c_queue (v_ctl w)) (c_delay (v_ctl w))).
+          (mkCtl (c_job (v_ctl w)) true (c_wdel (v_ctl w)) (c_wdel (v_ctl w)) (c_queue (v_ctl w)) (c_delay (v_ctl w)) (c_rq (v_ctl w))).
 
-(* ---------- requests ---------- *)
+(* ---------- faults ---------- *)
 Inductive fault := FCreate (t : positive) (i : Z) | FDelete (t : positive) (i : Z)
                  | FPatch (t : positive) (i : Z) | FStatus (n : Z)
-                 | FPgWrite (k : Z).   (* a PodGroup create/update is refused (law-only histories; ignored by this model) *)
+                 | FPgWrite (k : Z)    (* a PodGroup create/update is refused (law-only histories; ignored by this model) *)
+                 | FGive (f : fault).  (* a fault of the give-up execution (handleJobError's TerminateJob), not of the request's own *)
+(* the fault plan of the give-up execution: UpdateStatus indices start again at 0 *)
+Definition giveup_faults (F : list fault) : list fault :=
+  flat_map (fun f => match f with FGive g => [g] | _ => [] end) F.
 
-Record req := mkReq {
-  r_event : event;
-  r_action : option action;
-  r_task : option positive;
-  r_pod : option (positive * Z);
-  r_exit : Z;
-  r_version : Z;
-  r_uid : Z }.     (* 0: the request names another job uid; 1: no uid; 2: this job's uid *)
 
 Definition fails_create (F : list fault) (t : positive) (i : Z) : bool :=
   existsb (fun f => match f with FCreate t' i' => Pos.eqb t t' && Z.eqb i i' | _ => false end) F.
@@ -686,6 +714,75 @@ Definition fire (w : world) : world * bool * bool :=
         (with_delays w1 (cleanup_delays (c_delay (v_ctl w1)) (dt_action t) (dt_task t) (dt_pod t)), false, wr)
   end.
 
+(* ---------- the requeue budget (handleJobError) ----------
+   processNextReq with its error path: an Execute that fails re-queues the request (rate limited)
+   while NumRequeues(request) < maxRequeueNum or maxRequeueNum = -1; a success forgets the request;
+   a request that is dropped (job not in the cache) or only arms a delayed action is neither counted
+   nor forgotten.  With the budget exhausted the controller GIVES UP: it sends TerminateJobAction
+   through the state object it built BEFORE the failed Execute -- the state of the phase the cache
+   showed then, holding the job object and the pod view of then -- logs an error if that fails too,
+   and drops the request without forgetting it. *)
+Definition set_rq (w : world) (q : rqueue) : world :=
+  mkWorld (w_spec w) (v_spec w) (w_st w) (v_st w) (w_pods w) (v_pods w) (w_pg w) (v_pg w) (ctl_rq (v_ctl w) q).
+Definition executes (w : world) (r : req) : bool :=
+  c_job (v_ctl w) && negb (snd (apply_policies_d (v_spec w) (v_st w) r)).
+(* the failed Execute stored a new job object in the cache (first sync of a job: initJobStatus) and
+   failed afterwards: the state object still holds the OLD object (status, spec, deletion timestamp) *)
+Definition stale_view (w w1 : world) : world :=
+  mkWorld (w_spec w1) (v_spec w) (w_st w1) (v_st w) (w_pods w1) (v_pods w1) (w_pg w1) (v_pg w1)
+          (mkCtl (c_job (v_ctl w1)) (c_dirty (v_ctl w1)) (c_wdel (v_ctl w1)) (c_vdel (v_ctl w)) (c_queue (v_ctl w1))
+                 (c_delay (v_ctl w1)) (c_rq (v_ctl w1))).
+(* ... and what a failed give-up on that old object did to it never reaches the cache *)
+Definition keep_view (w1 w2 : world) : world :=
+  mkWorld (w_spec w2) (v_spec w1) (w_st w2) (v_st w1) (w_pods w2) (v_pods w2) (w_pg w2) (v_pg w2)
+          (mkCtl (c_job (v_ctl w2)) (c_dirty (v_ctl w2)) (c_wdel (v_ctl w2)) (c_vdel (v_ctl w1)) (c_queue (v_ctl w2))
+                 (c_delay (v_ctl w2)) (c_rq (v_ctl w2))).
+(* ... and the POD VIEW of that state object is the JobInfo clone the failed Execute worked on:
+   syncJob (PodGroup admitted) removes from the clone's maps every pod it matched with a replica
+   index of the spec (what is left are the surplus pods); killPods on a task target works on the
+   clone's map of that task and removes the pods whose out-of-sync patch was refused *)
+Definition in_replicas (sp : spec) (p : pod) : bool :=
+  match find_task sp (p_task p) with Some ts => in_range ts p | None => false end.
+Definition view_after (w : world) (a : action) (r : req) (F : list fault) : list pod :=
+  match exec (st_phase (v_st w)) a with
+  | (KSync, _) =>
+      let init := phase_beq (st_phase (v_st w)) PhNone in
+      if c_vdel (v_ctl w) || negb (c_queue (v_ctl w)) || (init && fails_status F 0) || negb (pg_admitted (v_pg w))
+      then v_pods w
+      else filter (fun p => negb (in_replicas (if init then w_spec w else v_spec w) p)) (v_pods w)
+  | (KKill _, _) => v_pods w
+  | (KTarget, _) =>
+      match target_of a r with
+      | TTask (Some t) =>
+          if c_vdel (v_ctl w) then v_pods w
+          else filter (fun p => negb (Pos.eqb (p_task p) t && fails_patch F t (p_idx p))) (v_pods w)
+      | _ => v_pods w
+      end
+  end.
+Definition with_vpods (w : world) (l : list pod) : world :=
+  mkWorld (w_spec w) (v_spec w) (w_st w) (v_st w) (w_pods w) l (w_pg w) (v_pg w) (v_ctl w).
+
+(* the world the give-up execution sees *)
+Definition giveup_world (w w1 : world) (wr : bool) (a : action) (r : req) (F : list fault) : world :=
+  with_vpods (if wr then stale_view w w1 else w1) (view_after w a r F).
+Definition give_up (w w1 : world) (wr : bool) (a : action) (r : req) (F : list fault) : world * bool * bool :=
+  let '(w2, e2, wr2) := execute (giveup_world w w1 wr a r F) ATerminate r (giveup_faults F) in
+  (* the cache's own pods are not touched by what happened to the clone *)
+  (with_vpods (if wr && negb wr2 then keep_view w1 w2 else w2) (v_pods w1), e2, wr2).
+
+Definition step_reqb (w : world) (r : req) (F : list fault) : world * bool * bool :=
+  let q := c_rq (v_ctl w) in
+  let '(w1, e, wr) := step_req w r F in
+  if negb e then
+    (set_rq w1 (mkRq (q_max q) (if executes w r then rq_forget r (q_cnt q) else q_cnt q) false), false, wr)
+  else
+    let n := rq_get r (q_cnt q) in
+    if (q_max q =? -1) || (n <? q_max q) then
+      (set_rq w1 (mkRq (q_max q) (rq_set r (n + 1) (q_cnt q)) false), true, wr)
+    else
+      let '(w2, _, wr2) := give_up w w1 wr (apply_policies (v_spec w) (v_st w) r) r F in
+      (set_rq w2 (mkRq (q_max q) (q_cnt q) true), true, wr || wr2).
+
 (* ---------- histories ---------- *)
 Definition fresh_status : status := mkStatus PhNone 0 0 0 c0 0 [] true false.
 
@@ -705,7 +802,7 @@ Inductive op :=
 
 Definition step (w : world) (o : op) : world * bool * bool :=
   match o with
-  | OReq r F => step_req w r F
+  | OReq r F => step_reqb w r F
   | OPodPhase t i ph =>
       (set_wpods w (update_pod t i (fun p => mkPod (p_task p) (p_idx p) ph (p_del p) (p_oos p)) (w_pods w)), false, false)
   | OPodDeleting t i => (set_wpods w (api_delete t i (w_pods w)), false, false)
@@ -716,21 +813,24 @@ Definition step (w : world) (o : op) : world * bool * bool :=
          updateJob (ignored when the resourceVersion did not change) *)
       if c_job (v_ctl w) && negb (c_dirty (v_ctl w)) then (w, false, false)
       else (mkWorld (w_spec w) (w_spec w) (w_st w) (w_st w) (w_pods w) (v_pods w) (w_pg w) (v_pg w)
-                    (mkCtl true false (c_wdel (v_ctl w)) (c_wdel (v_ctl w)) (c_queue (v_ctl w)) (c_delay (v_ctl w))), false, false)
+                    (mkCtl true false (c_wdel (v_ctl w)) (c_wdel (v_ctl w)) (c_queue (v_ctl w)) (c_delay (v_ctl w)) (c_rq (v_ctl w))), false, false)
   | OSyncPods => (mkWorld (w_spec w) (v_spec w) (w_st w) (v_st w) (w_pods w) (w_pods w) (w_pg w) (v_pg w) (v_ctl w), false, false)
   | OSyncPg => (mkWorld (w_spec w) (v_spec w) (w_st w) (v_st w) (w_pods w) (v_pods w) (w_pg w) (w_pg w) (v_ctl w), false, false)
   | OSetSpec sp => (mkWorld sp (v_spec w) (w_st w) (v_st w) (w_pods w) (v_pods w) (w_pg w) (v_pg w) (ctl_dirty (v_ctl w)), false, false)
   | ORestart =>
       (mkWorld (w_spec w) (v_spec w) (w_st w) (v_st w) (w_pods w) [] (w_pg w) None
-               (mkCtl false true (c_wdel (v_ctl w)) false (c_queue (v_ctl w)) (drop_delays (c_delay (v_ctl w)))), false, false)
+               (mkCtl false true (c_wdel (v_ctl w)) false (c_queue (v_ctl w)) (drop_delays (c_delay (v_ctl w)))
+                      (no_rq (q_max (c_rq (v_ctl w))))), false, false)   (* a new process: empty rate limiter *)
   | OReplaceJob sp =>
       (* deleteJob: cache.Delete drops the Job, keeps the pods; the new job has no status yet and
          its PodGroup name (job name + uid) is new *)
       (mkWorld sp (v_spec w) fresh_status (v_st w) (w_pods w) (v_pods w) None None
-               (mkCtl false true false false (c_queue (v_ctl w)) (c_delay (v_ctl w))), false, false)
+               (mkCtl false true false false (c_queue (v_ctl w)) (c_delay (v_ctl w))
+                      (* requests that named the old job's uid are different request values from now on *)
+                      (mkRq (q_max (c_rq (v_ctl w))) (filter (fun x => negb (r_uid (fst x) =? 2)) (q_cnt (c_rq (v_ctl w)))) false)), false, false)
   | OJobDeleting =>
       (mkWorld (w_spec w) (v_spec w) (w_st w) (v_st w) (w_pods w) (v_pods w) (w_pg w) (v_pg w)
-               (mkCtl (c_job (v_ctl w)) true true (c_vdel (v_ctl w)) (c_queue (v_ctl w)) (c_delay (v_ctl w))), false, false)
+               (mkCtl (c_job (v_ctl w)) true true (c_vdel (v_ctl w)) (c_queue (v_ctl w)) (c_delay (v_ctl w)) (c_rq (v_ctl w))), false, false)
   | OStaleJob => (w, false, false)   (* cache.Update refuses an older resourceVersion *)
   | OFire => fire w
   end.
@@ -744,7 +844,9 @@ Fixpoint trace (w : world) (ops : list op) : list (world * bool * bool) :=
   | o :: r => let x := step w o in x :: trace (fst (fst x)) r
   end.
 
-Definition init_ctl (queue : bool) : ctl := mkCtl true false false false queue no_delays.
-Definition init_world_q (queue : bool) (sp : spec) (st : status) (pods : list pod) (pg : option pgphase) : world :=
-  mkWorld sp sp st st pods pods pg pg (init_ctl queue).
+Definition init_ctl_m (maxrq : Z) (queue : bool) : ctl := mkCtl true false false false queue no_delays (no_rq maxrq).
+Definition init_ctl := init_ctl_m (-1).
+Definition init_world_m (maxrq : Z) (queue : bool) (sp : spec) (st : status) (pods : list pod) (pg : option pgphase) : world :=
+  mkWorld sp sp st st pods pods pg pg (init_ctl_m maxrq queue).
+Definition init_world_q := init_world_m (-1).
 Definition init_world := init_world_q true.
